@@ -122,4 +122,35 @@ class C16c(Obligation):
                 ctx.check(out.exc is None and out.value == 'new', 'patched inside the block')
 
 
-OBLIGATIONS = [C16a, C16c]
+from jedi.inference import InferenceState  # noqa: E402
+from jedi.inference import recursion as jrecursion  # noqa: E402
+
+
+class C16d(Obligation):
+    id = 'C16.d'
+    title = 'the per-query reset leaves no budget spent by earlier queries (all counters, stacks and per-function counts)'
+    pattern = 'P2 (arbitrary used detector state, then the real reset)'
+    assumptions = ('the detectors carry arbitrary symbolic counters before the reset; function identities are abstract',)
+
+    def scenario(self, ctx, cfg):
+        state = InferenceState.__new__(InferenceState)
+        state._pysym_holder = True
+        used = jrecursion.ExecutionRecursionDetector(state)
+        used._recursion_level = ctx.int('level', 0)
+        used._execution_count = ctx.int('total', 0)
+        used._parent_execution_funcs = ['f'] * ctx.choice('stack', 3)
+        used._funcdef_execution_counts = {'f': ctx.int('count_f', 0, jrecursion.per_function_execution_limit)}
+        state.execution_recursion_detector = used
+        state.recursion_detector = jrecursion.RecursionDetector()
+        state.recursion_detector.pushed_nodes = ['n'] * ctx.choice('pushed', 3)
+        ctx.force(InferenceState.reset_recursion_limitations)
+        out = ctx.call(state.reset_recursion_limitations)
+        ctx.check(out.exc is None, 'never raises')
+        d = state.execution_recursion_detector
+        ctx.check(d._recursion_level == 0 and d._execution_count == 0 and len(d._parent_execution_funcs) == 0
+                  and len(d._funcdef_execution_counts) == 0,
+                  'after the reset every execution budget is back at zero')
+        ctx.check(len(state.recursion_detector.pushed_nodes) == 0, 'and no statement is marked as being inferred')
+
+
+OBLIGATIONS = [C16a, C16c, C16d]
